@@ -12,7 +12,7 @@ structure VCtx where
   kind : String
   pat : Pattern
   sp : Option Nat
-  stAcc : Bool
+  acc : String          -- def | st | px | eh
   es : List Int
   ss : List Int
   pv : Option Int
@@ -20,8 +20,20 @@ structure VCtx where
 abbrev VView := MdsView Int LayoutI Int
 
 /-- the mapping object built from an extents value (and, for padded layouts, an optional padding) -/
+def VCtx.logs (c : VCtx) : Bool := c.acc == "st" || c.acc == "px"
+def VCtx.hasId (c : VCtx) : Bool := c.acc == "st" || c.acc == "px"
+/-- the data handle as an offset from the arena base; an empty handle type has one value -/
+def VCtx.handle (c : VCtx) (off : Int) : Int := if c.acc == "eh" then 0 else off
+
+/-- the user layout of the harness (`LogLayout`): offset `1 + 2 * row-major offset`, strides doubled -/
+def ulogStrides (T : ITy) (es : List Int) : M (List Int) := do
+  let st ← (List.range es.length).mapM (fun r => rightStrideM T es r)
+  pure (st.map (fun x => T.wrap (2 * x)))
+
 def mkMapI (c : VCtx) (es : List Int) (withStr : Bool) (pv : Option Int) : M (Option LayoutI) :=
   match c.kind with
+  | "ulog" => do let st ← ulogStrides c.T es; pure (some (.stride es st))
+  | "urev" => pure (some (.right es))
   | "left" => pure (some (.left es))
   | "right" => pure (some (.right es))
   | "stride" => pure (if withStr then some (.stride es c.ss) else none)
@@ -38,6 +50,8 @@ def extOf (x : Ext) : List Int := (List.range x.rank).map x.extent
 def alwaysExh (c : VCtx) (pat : Pattern) (rank : Nat) : Bool :=
   match c.kind with
   | "stride" => false
+  | "ulog" => false
+  | "urev" => true
   | "lpad" => padIsAlwaysExh c.sp (pat.headD none) rank
   | "rpad" => padIsAlwaysExh c.sp (pat.getLastD none) rank
   | _ => true
@@ -45,10 +59,10 @@ def alwaysExh (c : VCtx) (pat : Pattern) (rank : Nat) : Bool :=
 def obsV (c : VCtx) (T : ITy) (pat : Pattern) (v : VView) : String :=
   let r : M String := do
     let st ← v.m.stridesM T
-    let ex ← v.m.exhM T
+    let ex ← (if c.kind == "ulog" then pure false else v.m.exhM T)
     let es := v.m.extents
     pure (s!"h={v.h} e={fmtL es} s={fmtL st} acc={v.a} sz={mdsSizeM T es} emp={fmtB (mdsEmptyM es)} " ++
-          s!"fl=1{fmtB ex}11{fmtB (alwaysExh c pat es.length)}1 rk={es.length},{rankDyn pat} fw=1")
+          (if c.kind == "urev" then "fl=110110" else s!"fl=1{fmtB ex}11{fmtB (alwaysExh c pat es.length)}1") ++ s!" rk={es.length},{rankDyn pat} fw=1")
   match r with
   | .ok s => s
   | .error e => ubStr e
@@ -67,7 +81,7 @@ def vstep (c : VCtx) (s : VState) (cmd : String) : M VState := do
   let nn (k : Nat) : Nat := (n k).toNat
   let l (k : Nat) : List Int := parseList (a.getD k "-")
   let emit (x : String) : VState := { s with out := s.out ++ [x] }
-  let accId : Int := if c.stAcc then 0 else -1
+  let accId : Int := if c.hasId then 0 else -1
   let put (i : Nat) (v : Option VView) : VState := { s with pool := Pool.put s.pool i v }
   match a.headD "" with
   | "pr" | "un" => pure s
@@ -82,23 +96,23 @@ def vstep (c : VCtx) (s : VState) (cmd : String) : M VState := do
     let x := Ext.ctorM c.T S c.pat vals
     let m ← mkMapI c (extOf x) false none
     match m with
-    | some m => pure (put (nn 1) (some ⟨n 2, m, accId⟩))
+    | some m => pure (put (nn 1) (some ⟨c.handle (n 2), m, accId⟩))
     | none => pure (emit "no-ctor")
   | "cex" =>
     if c.kind == "stride" then pure (emit "no-ctor") else
     let m ← mkMapI c c.es false none
     match m with
-    | some m => pure (put (nn 1) (some ⟨n 2, m, accId⟩))
+    | some m => pure (put (nn 1) (some ⟨c.handle (n 2), m, accId⟩))
     | none => pure (emit "no-ctor")
   | "cmp" =>
     let m ← mkMapI c c.es true c.pv
     match m with
-    | some m => pure (put (nn 1) (some ⟨n 2, m, accId⟩))
+    | some m => pure (put (nn 1) (some ⟨c.handle (n 2), m, accId⟩))
     | none => pure (emit "no-ctor")
   | "cma" =>
     let m ← mkMapI c c.es true c.pv
     match m with
-    | some m => pure (put (nn 1) (some ⟨n 2, m, if c.stAcc then n 3 else -1⟩))
+    | some m => pure (put (nn 1) (some ⟨c.handle (n 2), m, if c.hasId then n 3 else -1⟩))
     | none => pure (emit "no-ctor")
   | "cp" => pure { s with pool := Pool.step s.pool (.copy (nn 1) (nn 2)) }
   | "mv" => pure { s with pool := Pool.step s.pool (.move (nn 1) (nn 2)) }
@@ -119,20 +133,25 @@ def vstep (c : VCtx) (s : VState) (cmd : String) : M VState := do
     match getSlot s.pool (nn 1) with
     | none => pure (emit "none")
     | some v =>
-      match parseTy (a.getD 3 "") with
+      match (if a.getD 2 "" == "br1" && v.m.extents.length != 1 then none else parseTy (a.getD 3 "")) with
       | none => pure (emit "no-form")
       | some S =>
         let idx := (l 4).map (fun x => c.T.wrap (S.wrap x))
-        let off ← v.m.offM c.T idx
-        let base := s!"a={v.h + off}"
-        pure (emit (if c.stAcc then base ++ s!" log={v.h},{ITy.u64.wrap off} n=1" else base))
+        let off0 ← v.m.offM c.T idx
+        let spn ← v.m.spanM c.T
+        let off := if c.kind == "ulog" then c.T.wrap (1 + off0) else if c.kind == "urev" then c.T.wrap (spn - 1 - off0) else off0
+        let shift : Int := if c.acc == "sh" then 1000 else 0
+        let base := s!"a={v.h + off + shift}" ++ (if c.kind == "ulog" then s!" ix={fmtL idx}" else "")
+        pure (emit (if c.logs then base ++ s!" log={v.h},{ITy.u64.wrap off} n=1" else base))
   | "wr" =>
     match getSlot s.pool (nn 1) with
     | none => pure (emit "none")
     | some v =>
       let idx := (l 3).map (fun x => c.T.wrap (ITy.i64.wrap x))
-      let off ← v.m.offM c.T idx
-      pure { s with mem := (v.h + off, n 2) :: s.mem }
+      let off0 ← v.m.offM c.T idx
+      let spn ← v.m.spanM c.T
+      let off := if c.kind == "ulog" then c.T.wrap (1 + off0) else if c.kind == "urev" then c.T.wrap (spn - 1 - off0) else off0
+      pure { s with mem := (v.h + off + (if c.acc == "sh" then 1000 else 0), n 2) :: s.mem }
   | "df" =>
     -- cells whose content differs from the initial pattern 1000000+i, ascending by address
     let addrs := (s.mem.map (·.1)).eraseDups
@@ -147,7 +166,7 @@ def viewLine (kind ty : String) (rest : List String) : String :=
   | some T =>
     let pat := parsePat ((getKey rest "pat").getD "-")
     let c : VCtx := { T := T, T2 := .i64, kind := kind, pat := pat, sp := parseOptNat ((getKey rest "sp").getD "D"),
-                      stAcc := ((getKey rest "k").getD "def") == "st",
+                      acc := (getKey rest "k").getD "def",
                       es := wrapL T (parseList ((getKey rest "ext").getD "-")), ss := wrapL T (parseList ((getKey rest "str").getD "-")),
                       pv := (getKey rest "pv").bind String.toInt? }
     let cmds := ((getKey rest "seq").getD "").splitOn "/"
